@@ -7,7 +7,8 @@ from ..core import HEADER, CASE_TYPE, CHECK, MODEL_VIEW, SHARD, CASE_TIMEOUT, ob
 ID = "C09"
 THEOREMS = ["C09_inline", "C09_undefined_macro", "C09_too_few_arguments", "C09_deferred_argument", "C09_code_splice",
             "C09_code_splice_not_code", "C09_inline_deferred", "C09_deferred_flag", "C09_deferred_assembly",
-            "C09_inline_assembly", "C09_inline_assembly_deferred", "C09_code_argument_assembly"]
+            "C09_inline_assembly", "C09_inline_assembly_deferred", "C09_code_argument_assembly",
+            "C09_nested_splices_assembly"]
 RULE = ("generated macro definitions (0-3 parameters, all statement kinds in bodies, local labels, nested calls, code-block "
         "parameters) x argument expressions (literals, constants, backward/forward labels, names equal to parameter names) "
         "x 1-4 applications; each program is compared with the model and with its mechanically inlined twin "
@@ -22,13 +23,14 @@ PROVED_NOTE = ("proved: an application whose arguments evaluate at the call site
                "a program with an application = the program with the inlined block, unconditionally for eager arguments, under the "
                "capture condition for deferred ones; with code-block arguments = the block with every splice (own level / nested blocks) "
                "replaced by the argument's statements (one-level substitution; side condition: no expression uses a code-parameter "
-               "name as an identifier, shown necessary). Correspondence-only: nested applications/splices inside code arguments, and "
-               "code + deferred arguments mixed (inlined twins).")
+               "name as an identifier, shown necessary); nested splices / nested applications inside the body and the arguments (recursive "
+               "substitution) under the condition that no macro applied meanwhile has a parameter of the same name (shown necessary). "
+               "Correspondence-only: a nested application that rebinds the same parameter name, code + deferred arguments mixed (inlined twins).")
 MANIFEST = {
     "text": ("Coq theorem over the Gallina model of generate_macro_application (all macros/arguments of the eager kind); model "
              "tied to the code by differential runs; oracle: the implementation's output for the program equals its output for "
              "the mechanically inlined twin."),
-    "note": "Partial only for nested splices inside code arguments and code+deferred mixes (twin + correspondence). Trusted: Coq kernel/vm_compute, harness. No axioms.",
+    "note": "Partial only for nested applications rebinding a code-parameter name and code+deferred mixes (twin + correspondence). Trusted: Coq kernel/vm_compute, harness. No axioms.",
     "technique": "Coq proof (definitional equality of expansions) + differential correspondence + inlined twins",
 }
 
